@@ -161,10 +161,19 @@ def ensure(unit):
     try:
         if os.path.isfile(os.path.join(d, "DONE")):
             return d
-        # drop stale generations of this unit
+        # drop stale generations of this unit: keep the 5 most recent ones (concurrent runs on other trees may be using them)
+        gens = []
         for old in os.listdir(os.path.join(WORK, "facts")):
             if old.startswith(unit + "-") and old != unit + "-" + key:
-                shutil.rmtree(os.path.join(WORK, "facts", old), ignore_errors=True)
+                pth = os.path.join(WORK, "facts", old)
+                try:
+                    gens.append((os.path.getmtime(pth), pth))
+                except OSError:
+                    pass
+        gens.sort(reverse=True)
+        for mt, pth in gens[5:]:
+            if time.time() - mt > 1800:
+                shutil.rmtree(pth, ignore_errors=True)
         shutil.rmtree(d, ignore_errors=True)
         os.makedirs(d)
         with open(os.path.join(d, "build.log"), "w") as log:
